@@ -12,11 +12,12 @@ from . import c05
 PROPERTY_ID = "C06"
 LEVEL = "exploration"
 EXHAUSTIVE = True
-RULE = ("Exhaustive shape family: context {top level, function, closure} x loop {while, for} x 0..2 wrappers from "
+RULE = ("Exhaustive shape family: context {top level, function, closure} x loop {while, for, for over tuples} x 0..2 wrappers from "
         "{if, if/else-else, match-Some, match-None} x the block on that path holding `let v` (loop body or any "
         "wrapper) x innermost exit {normal, break, continue, return} x probe "
         "{read of the dead `v` after the loop -> must raise `No such variable`, read of a same-named outer variable "
-        "-> must print the outer value, read later in the same iteration after the wrapper}; plus random G-core "
+        "-> must print the outer value, read later in the same iteration after the wrapper, the same two reads of the "
+        "loop variable itself}; plus random G-core "
         "programs (early-exit biased, shadowing on) followed by a read of a name that is only ever bound in dead "
         "blocks. Non-trivial = exit is break/continue/return and nesting depth >= 1 (shape family) or the program "
         "has a loop with an early exit (random); distinct = distinct source text.")
@@ -48,8 +49,10 @@ def build(ctx_kind, loop, wraps, exit_, probe, let_level=None):
     flag = Binder("flag", BOOL)
     nothing = Binder("nothing", G.TOption(INT))
     inner_v = Binder("v", INT)
-    outer_v = Binder("v", INT) if probe in ("outer", "same-iteration-outer") else None
-    caller_v = Binder("v", INT) if probe in ("outer", "same-iteration-outer") else None
+    pname = "it" if probe.endswith("loopvar") else "v"     # loopvar probes read the loop variable after the loop
+    has_outer = probe in ("outer", "same-iteration-outer", "outer-loopvar")
+    outer_v = Binder(pname, INT) if has_outer else None
+    caller_v = Binder(pname, INT) if has_outer else None
 
     def decl():
         return [S("let", (inner_v, None, E("int", (7,), INT))), S("print", (E("var", (inner_v,), INT),))]
@@ -84,6 +87,11 @@ def build(ctx_kind, loop, wraps, exit_, probe, let_level=None):
         body.append(S("probe", ("v", outer_v)))
     if loop == "while":
         loop_stmt = S("while", (Binder("i1", INT, kind="counter"), 2, None, Block(body)))
+    elif loop == "for-tuple":
+        tt = G.TTuple([INT, INT])
+        pairs = tuple(E("tuple", ((E("int", (a,), INT), E("int", (b,), INT)),), tt) for a, b in ((1, 2), (3, 4)))
+        loop_stmt = S("for", ((Binder("it", INT, kind="loopvar"), Binder("jt", INT, kind="loopvar")),
+                              E("list", (pairs,), G.TList(tt)), Block(body)))
     else:
         loop_stmt = S("for", (Binder("it", INT, kind="loopvar"),
                               E("list", ((E("int", (1,), INT), E("int", (2,), INT)),), G.TList(INT)), Block(body)))
@@ -92,7 +100,7 @@ def build(ctx_kind, loop, wraps, exit_, probe, let_level=None):
     if outer_v is not None:
         seq.append(S("let", (outer_v, None, E("int", (100,), INT))))
     seq.append(loop_stmt)
-    seq.append(S("probe", ("v", outer_v)))
+    seq.append(S("probe", (pname, outer_v)))
     if ctx_kind == "top":
         if exit_ == "return":
             return None
@@ -111,19 +119,24 @@ def build(ctx_kind, loop, wraps, exit_, probe, let_level=None):
     if caller_v is not None:
         main.append(S("let", (caller_v, None, E("int", (200,), INT))))
     main.append(S("print", (call,)))
-    main.append(S("probe", ("v", caller_v)))
+    main.append(S("probe", (pname, caller_v)))
     return G.Program(funs, Block(main), False)
 
 
 def enum_shapes(tier):
     seen = set()
     for ctx_kind in ("top", "fun", "closure"):
-        for loop in ("while", "for"):
+        for loop in ("while", "for", "for-tuple"):
             for d in range(0, 3):
                 for wraps in itertools.product(WRAPS, repeat=d):
                     for exit_ in ("normal", "break", "continue", "return"):
-                        for probe in ("dead", "outer", "same-iteration", "same-iteration-outer"):
+                        probes = ["dead", "outer", "same-iteration", "same-iteration-outer"]
+                        if loop != "while":
+                            probes += ["dead-loopvar", "outer-loopvar"]
+                        for probe in probes:
                             for let_level in range(d, -1, -1):
+                                if probe.endswith("loopvar") and let_level != d:
+                                    continue
                                 if probe.startswith("same-iteration") and (not wraps or exit_ != "normal"
                                                                             or let_level == 0):
                                     continue
@@ -139,7 +152,7 @@ def enum_shapes(tier):
                                        "shape": [ctx_kind, loop, list(wraps), exit_, probe, let_level]}
 
 
-UNBOUND_RE = re.compile(r"^Exception: No such variable `v`\.", re.M)
+UNBOUND_RE = re.compile(r"^Exception: No such variable `(v|it)`\.", re.M)
 
 
 def check_shape(case, ctx) -> Res:
